@@ -28,7 +28,8 @@ RULE = ("Hypothesis draws a separable sum of singular primitives (abs, sqrt, log
         "entries must equal the textbook derivative, 0/0 entries must be 0, infinite ones +/-1e16, and the "
         "vectorised build must return the same array as the long-hand build.  Non-trivial = the same array "
         "has a singular entry and a regular non-zero entry."
-        '  Also: every term may carry a scale factor c*S; every callable is evaluated twice at the same point (results must be identical); Hessian diagonal entries whose textbook second derivative is infinite must be +/-1e16.')
+        '  Also: every term may carry a scale factor c*S; every callable is evaluated twice at the same point (results must be identical); Hessian diagonal entries whose textbook second derivative is infinite must be +/-1e16.'
+        ' Also (round 6): the exponent of u ** k given as a Parameter; the deep-tree (iterative) algorithms forced by a lowered threshold.')
 BUDGET = {"quick": {"workers": 16, "examples": 500}, "thorough": {"workers": 16, "examples": 6000}}
 ASSUMPTIONS = ["textbook derivative formulas evaluated in IEEE double arithmetic define undefined (NaN) vs unbounded (inf)"]
 MANIFEST = {
